@@ -9,7 +9,19 @@ CHECK = {'level': 'exploration',
          '(with and without prefix) writes, Get/Exist/Iterate/IterateKey/IterateRange on the DB and on up to two Readers taken earlier. '
          'Non-trivial (staged) = the history contains a limited scan whose bounds cover a staged delete of a stored key, or a scan '
          'through a child view over a key last written through another view, or a successful restore followed by a read; non-trivial '
-         '(db) = a scan bound or prefix that is a proper prefix of a stored key. Distinct by digest of initial contents + operation list',
+         '(db) = a scan bound or prefix that is a proper prefix of a stored key. Distinct by digest of initial contents + operation list. '
+         'Argument/result aliasing discipline in 70% of the histories of both machines (labels alias-*): the value slice of a Set is fresh | the '
+         'SAME slice object as an earlier Set (same key, other key, other view; whole, a shorter prefix of it, or extended into its capacity) | '
+         'a window of one buffer shared by many values (capacity running over the following values, or capacity = length) | a slice returned '
+         'by an earlier Get | a value slice or a key slice of an earlier Range/Iterate result; sources from the same overlay, from before a '
+         'Snapshot, a RestoreSnapshot or a Commit; new length equal / shorter / longer than what the entry holds; Set/Get biased towards keys whose '
+         'staged value shares an array with another key. Key, bound and prefix arguments: fresh, fresh with spare capacity, windows of one '
+         'shared key buffer (spare capacity over the next argument, or capacity = length; Range also end-before-start), or the key slice of an '
+         'earlier scan result passed on as it is. After a call the harness overwrites its key/bound/prefix buffers (50%) and slices it got from '
+         'Get (25% of the calls); it never writes to a value slice it handed to Set nor to slices of a scan result (the store keeps / hands out '
+         'those uncopied; no engine caller writes to them). Extra oracle: no store call changes a byte (through the full capacity) of any '
+         'buffer the harness made or still holds from a read. Fixed histories TestRegressAliasedValueSlices (one slice under two new keys; a '
+         'Range/Iterate result copied to new keys, originals updated; overlapping windows of one buffer; a Get result under two keys) in every tier',
  'level_text': 'Model-based state-machine test of the staged store (diffdb) and of the database scans (db, Reader, Batch, batchdb) against a '
                'sorted-map reference: every read is compared with the same query on the model (one logical staged state shared by all prefix '
                'views), every Commit with the staged map (whole database dump, keys outside the root prefix included), every diff by '
@@ -18,12 +30,15 @@ CHECK = {'level': 'exploration',
                '(tree before "fix: restore a diffdb snapshot for every prefixed view"), snapshots are taken/restored through the root view only '
                'and prefix views are re-derived after a restore, as statemachine.ExecuteTransaction/GetStore do; otherwise any view takes/restores '
                'snapshots and old handles stay in use. limit 0 and limits < -1 are outside the asserted domain (no caller; db scans and diffdb '
-               'disagree on 0). Callers do not mutate slices passed to / returned from the store (not tested). No concurrency. While findings '
+               'disagree on 0). Callers share value slices read-only and re-use key/bound/prefix buffers and Get results; they do not WRITE to a value '
+               'slice handed to Set or to slices of a Range/Iterate result (the store keeps / hands out those uncopied: measured by '
+               'TestObserveAliasing, outside the domain). No concurrency. While findings '
                'C12-F1..F3 are present and listed as known their triggers are avoided (on that tree Iterate is exercised only through views with '
                'an empty full prefix).',
  'technique': 'property-based state-machine testing (rapid) against a sorted-map reference model',
  'assumptions': ['reference = harness/model/kv (map sorted on every query)',
                  'snapshot domain follows the start-up probe (root-only + re-derived views where a restore is not seen by other handles)',
-                 'limit in {-1} or >= 1', 'database is not written behind a live staged store (the node commits, then starts a fresh one)'],
+                 'limit in {-1} or >= 1', 'database is not written behind a live staged store (the node commits, then starts a fresh one)',
+                 'value slices handed to Set and slices of scan results are shared read-only: neither the caller nor the store writes to them'],
  'quick': [{'pkg': 'c12', 'checks': 10000, 'steps': 40, 'timeout': 600}],
  'thorough': [{'pkg': 'c12', 'checks': 40000, 'steps': 40, 'shards': 16, 'timeout': 2400}]}
